@@ -33,7 +33,9 @@ Inductive bq :=
 | QSucc (v : N) (o : o3 (option (N * N)))
 (* one_iter / zero_iter: k x next(), then nth(n) or nth_back(n), then next() or next_back(), then len() *)
 | QNth (zero back : bool) (k n : N) (o : o3 (option (N * N) * option (N * N) * N))
-| QBitNth (back : bool) (k n : N) (o : o3 (option bool * option bool * N)).
+| QBitNth (back : bool) (k n : N) (o : o3 (option bool * option bool * N))
+(* one_iter / zero_iter: j x next_back(), k x next(), then nth(n), next(), len() *)
+| QNthJ (zero : bool) (j k n : N) (o : o3 (option (N * N) * option (N * N) * N)).
 
 Inductive content :=
 | Bits (len : N) (words : list N)           (* a bit sequence, 64 bits per word, least significant first *)
@@ -187,6 +189,9 @@ Definition spec_bq (O : oracle) (q : bq) : bool :=
   | QBitNth back k n o =>
       let R := skipN (o_bits O) k in
       ok3 (nth_eqb Bool.eqb) (after_nth (if back then rev R else R) n) o
+  | QNthJ z j k n o =>
+      let R := skipN (rev (skipN (rev (o_items O z)) j)) k in
+      ok3 (nth_eqb nn_eqb) (after_nth R n) o
   end.
 
 (* ---- wavelet matrix: everything from the value list ---- *)
@@ -291,6 +296,12 @@ Fixpoint oi_nth_back_default (fuel : nat) (m : mode) (t : transf) (b : bitvec) (
 
 Definition small (k : N) : nat := N.to_nat (N.min k 100000).
 
+Fixpoint oi_consume_back (m : mode) (t : transf) (b : bitvec) (k : nat) (it : one_iter) : res one_iter :=
+  match k with
+  | O => Ok it
+  | S k' => let* (it', _) := oi_next_back m t b it in oi_consume_back m t b k' it'
+  end.
+
 Definition model_bq (sp : selpath) (m : mode) (b : bitvec) (q : bq) : bool :=
   match q with
   | QCounts o => m1 n3_eqb (Ok (bv_len b, bv_count_ones b, bv_count_zeros b)) o
@@ -322,6 +333,13 @@ Definition model_bq (sp : selpath) (m : mode) (b : bitvec) (q : bq) : bool :=
           else
             let* (it1, a1) := bi_nth b it0 n in
             let* (it2, a2) := bi_next_f b it1 in Ok (a1, a2, bi_len it2)) o
+  | QNthJ z j k n o =>
+      let t := tr z in
+      m1 (nth_eqb nn_eqb)
+         (let* itb := oi_consume_back m t b (small j) (oi_start t b) in
+          let* it0 := oi_consume t b (small k) itb in
+          let* (it1, a1) := oi_nth sp m t b it0 n in
+          let* (it2, a2) := oi_next_f t b it1 in Ok (a1, a2, oi_len it2)) o
   end.
 
 (* ---- RLVector: the third observed result. The model is evaluated only when the call was made (the thunk: walks
@@ -343,6 +361,7 @@ Definition model_rl_bq (m : mode) (v : RL.rlvec) (q : bq) : bool :=
   (* the RL iterators are forward only: nth_back / next_back do not exist *)
   | QNth z back k n o => if back then not_made o else mr (nth_eqb nn_eqb) (fun _ => C09RL.q_nth m v z k n) o
   | QBitNth back k n o => if back then not_made o else mr (nth_eqb Bool.eqb) (fun _ => C09RL.q_bit_nth m v k n) o
+  | QNthJ _ _ _ _ o => not_made o
   end.
 
 (* the RLVector of a content, as the harness builds it *)
@@ -360,7 +379,7 @@ Definition model_rl (m : mode) (ct : content) (qs : list bq) : bool :=
                               | QCounts o => not_made o | QGet _ o => not_made o | QRank _ o => not_made o
                               | QRank0 _ o => not_made o | QSel _ _ o => not_made o | QSelIter _ _ o => not_made o
                               | QPred _ o => not_made o | QSucc _ o => not_made o | QNth _ _ _ _ o => not_made o
-                              | QBitNth _ _ _ o => not_made o end) qs
+                              | QBitNth _ _ _ o => not_made o | QNthJ _ _ _ _ o => not_made o end) qs
   end.
 
 (* ---- SparseVector: the second observed result, against Model/Sparse.v on the vector rebuilt with the recorded width ---- *)
@@ -383,6 +402,7 @@ Definition model_sp_bq (sp : selpath) (m : mode) (v : Sparse.sparse) (q : bq) : 
       if z then (if back then sp_not_made o else ms (nth_eqb nn_eqb) (fun _ => C09Sparse.q_zero_nth m v k n) o)
       else ms (nth_eqb nn_eqb) (fun _ => C09Sparse.q_one_nth m v back k n) o
   | QBitNth back k n o => ms (nth_eqb Bool.eqb) (fun _ => C09Sparse.q_bit_nth m v back k n) o
+  | QNthJ z j k n o => if z then sp_not_made o else ms (nth_eqb nn_eqb) (fun _ => C09Sparse.q_one_nth_j m v j k n) o
   end.
 
 (* the SparseVector of a content, as the harness builds it, with low width sw *)
